@@ -45,10 +45,20 @@ def main():
     # 2. run the checks against it
     patch = os.path.join(wt, "patch.diff")
     sh(f"git diff -- src > {patch}", wt)
-    rc, out = sh(f"git apply --check {patch} && git apply {patch}", "/repo")
-    if rc != 0:
-        print("patch does not apply to /repo:", out)
-        return 1
+    # the checks run against the worktree that holds the change (VERIF_REPO), so /repo itself is never touched and
+    # background runs that use /repo are not disturbed; SEED_IN_REPO=1 applies the patch to /repo instead
+    in_repo = os.environ.get("SEED_IN_REPO") == "1"
+    if in_repo:
+        rc, out = sh(f"git apply --check {patch} && git apply {patch}", "/repo")
+        if rc != 0:
+            print("patch does not apply to /repo:", out)
+            return 1
+    else:
+        rc, out = sh(f"git apply --check -R {patch}", wt)
+        if rc != 0:
+            print("worktree does not hold the patch:", out)
+            return 1
+        ENV["VERIF_REPO"] = wt
     results = {}
     try:
         for p in [prop] + others:
@@ -61,10 +71,14 @@ def main():
             if m and os.path.exists(m.group(1)):
                 r = json.load(open(m.group(1)))
                 rep = {"ops": r.get("ops"), "observed": r.get("observed"), "kind": r.get("kind"), "no_longer_checks": r.get("no_longer_checks"), "correspondence": r.get("correspondence")}
+            if rep and rep["ops"] and rep["kind"] == "implementation-violates-property" and p == prop:
+                open(os.path.join(ROOT, "corpus", f"{p}_{name}.ops"), "w").write("\n".join(rep["ops"]) + "\n")
             results[p] = {"exit": rc, "lines": line, "summary": summary, "replay": rep, "wall_s": round(time.time() - t0, 1)}
             print(p, "exit", rc, line, summary)
     finally:
-        sh("git checkout -- . && git status --short", "/repo")
+        if in_repo:
+            sh("git checkout -- . && git status --short", "/repo")
+        ENV.pop("VERIF_REPO", None)
     meta["checks"] = results
     meta["detected_by"] = [p for p, r in results.items() if r["exit"] != 0]
     # 3. keep
@@ -76,7 +90,8 @@ def main():
         shutil.copy(os.path.join(wt, "NOTES.md"), os.path.join(d, "NOTES.md"))
         meta["needs_to_manifest"] = open(os.path.join(wt, "NOTES.md")).read()[:1500]
     meta["ran"] = ["cargo test --offline --lib / --doc / --test seeded_demo in the worktree (with and without the change)",
-                   "git -C /repo apply patch.diff; ./check <property> --tier quick for " + ", ".join([prop] + others) + "; git -C /repo checkout -- ."]
+                   ("git -C /repo apply patch.diff; ./check <property> --tier quick for " + ", ".join([prop] + others) + "; git -C /repo checkout -- ." if in_repo else
+                    "VERIF_REPO=<scratch worktree holding the change> ./check <property> --tier quick for " + ", ".join([prop] + others) + " (the harness is rebuilt against that worktree; /repo untouched)")]
     json.dump(meta, open(os.path.join(d, "meta.json"), "w"), indent=1, ensure_ascii=False)
     print("kept in", d, "detected by", meta["detected_by"])
     return 0
